@@ -21,7 +21,7 @@ RULE = ('trees: leaves x { !, &&, || with 2 or 3 operands } to depth 2 (binary a
         'after !, after ( and before ) ); simple-expression contexts (every/any line, num-lines, -transformed-by, contents, line-num, -selection, '
         '-with-pruned, every/any file, num-files, dir-contents, replace -at, filter) followed by an outer infix operator; malformed family = every '
         'single-token deletion, duplication and adjacent transposition of the renderings of the depth-1 trees, plus dangling / doubled operators of every mix of && and || '
-        '(bare, parenthesised, unbalanced), each also laid out with a line break before every infix operator; half operators (`&`, `|`); superfluous text after a complete expression in the hosting assertion; '
+        '(bare, parenthesised, unbalanced), each also laid out with a line break before every infix operator; half operators (`&`, `|`); superfluous text after a complete expression in the hosting assertion; a line that starts with an infix operator after a complete expression outside parentheses (6 expressions x {&&, ||} x {definition, assertion}); '
         'non-trivial = tree with at least one operator (value depends on structure) ; renderings of one tree are counted once')
 ASSUMPTIONS = [
     'a line break *before* an infix operator is must-accept only inside parentheses and for a chain of one operator kind (as the project\'s own parser tests '
@@ -353,6 +353,7 @@ def cases(tier):
         yield ('malformed', host, -1, -1)  # dangling / doubled operators of mixed kinds
         yield ('tail', host)
         yield ('nl-before-op', host)
+        yield ('op-starts-line', host)
     yield ('transformer', 0)
     for i in range(len(CONTEXTS)):
         yield ('context', i)
@@ -480,6 +481,8 @@ def run(case) -> Result:
         return _mal_one(res, case[1], list(case[2]))
     if k == 'nl-before-op':
         return _nl_before_op(res, case[1], case)
+    if k in ('op-starts-line', 'op-starts-line-one'):
+        return _op_starts_line(res, case[1], case)
     if k == 'transformer':
         return _transformer(res, case)
     if k == 'context':
@@ -656,6 +659,37 @@ def _tail(res, host, case):
                         % (host, line, ' '.join(t), o.rc, o.out.strip()), ' / '.join(cli.stderr_lines(o.err)[:4])[:300]])
                 if not neg:
                     break
+    return res
+
+
+def _op_starts_line(res, host, case):
+    """OUTSIDE parentheses a complete expression ends the instruction at the end of its line: a following line that starts with an infix operator is
+    not a continuation (it is no instruction either), whatever the operator - `&&` and `||` alike.  Syntax error, never the value of a longer expression."""
+    w = world.get()
+    seam = procseam.SEAM
+    l0, l1, l2 = MAL_LEAVES[host]
+    firsts = [l0, ['!'] + l0, ['('] + l0 + [')'], l0 + ['&&'] + l1, l0 + ['||'] + l1, ['('] + l0 + ['||'] + l1 + [')']]
+    only = (case[2], case[3], case[4]) if case[0] == 'op-starts-line-one' else None
+    for fi, e in enumerate(firsts):
+        for op in ('&&', '||'):
+            for where in ('def', 'assert'):
+                if only and only != (fi, op, where):
+                    continue
+                src = ' '.join(e) + '\n' + op + ' ' + ' '.join(l2)
+                _setup_world(w, seam)
+                if where == 'def':
+                    text = '\n'.join(HEAD[:4] + ['copy d', 'def %s M = %s' % (TYPE[host], src)] + HEAD[5:]) + '\n'
+                else:
+                    text = '\n'.join(HEAD + [ASSERT[host] % src]) + '\n'
+                o = cli.run_case(text)
+                res.n += 1
+                res.nontrivial += 1
+                res.outcomes[(host, 'op-starts-line', op, o.ident)] += 1
+                if o.rc != 65 or o.ident != 'SYNTAX_ERROR' or o.exc:
+                    res.violation(('op-starts-line-one', host, fi, op, where), [
+                        '%s host (%s): `%s` - the expression is complete at the end of its line; the next line starts with `%s` and is neither a continuation '
+                        '(outside parentheses) nor an instruction: expected SYNTAX_ERROR, got rc=%s %s' % (host, where, src.replace('\n', '<NL>'), op, o.rc, o.out.strip()),
+                        ' / '.join(cli.stderr_lines(o.err)[:4])[:300]], {'file': text})
     return res
 
 
